@@ -195,7 +195,7 @@ def check_case(case, ctx):
 
 
 def reach(counters, tier, info):
-    k = 1 if tier == "quick" else 8
+    k = 0.5 if tier == "quick" else 8
     out = []
     runs = counters.get("runs", 0)
     v = counters.get("ilp_runs_n3", 0)
